@@ -23,6 +23,7 @@ def jobs(pid, tier, seed):
     out += [{"kind": "dirdup4", "i": i} for i in range(4)]
     n = 700 if tier == "quick" else 15000
     out += [{"kind": "dup", "seed": seed * 1000003 + i, "max": 4 if tier == "quick" else 12} for i in range(n)]
+    out += [{"kind": "dup", "seed": seed * 1000003 + 5000000 + i, "max": 6 if tier == "quick" else 14, "life": 1} for i in range(n // 2)]
     return out
 
 
@@ -360,7 +361,7 @@ def run_job(pid, job, acc):
         check_history(acc, h, Config(usage=bool(job["i"] % 2)), job["i"] // 2, "dirdup:%d" % job["i"], 50, random.Random(0), both=True)
         return
     s = job["seed"]
-    hist = generate(s, **GEN)
+    hist = generate(s, style=("life" if job.get("life") else None), **GEN)
     cfg = cfg_for(s)
     check_history(acc, hist, cfg, s, "dup:%d" % s, job["max"], random.Random(s))
     if len(acc.samples) < 2:
